@@ -93,6 +93,26 @@ def x2_ack_points(crate):
     return msg + '; X2b: %d interference points inserted in poll (after each of its %d top-level statements; the tail expression is not a statement)' % (len(ends) + 1, len(ends))
 
 
+def x2c_idgen_points(crate):
+    """X2c: a call `verif_kani::next_point(self, k)` before the first and after every top-level statement of
+    IncreasingIdGenerator::next (cfg(kani) only): the places where another client thread's call of `next` can land.
+    The tail expression is not a statement: a `next` that is one atomic read-modify-write has the single point 0."""
+    rel = 'src/cache/unique_id/increasing_id_generator.rs'
+    path = os.path.join(crate, rel)
+    src = Source(path)
+    loc = src.find_fn(r'^impl IncreasingIdGenerator$', 'next')
+    body = src.text[loc['body_open']:loc['end']]
+    ends = top_level_statements(body, tail_is_statement=False)
+    out = body[:1] + '\n        #[cfg(kani)] verif_kani::next_point(self, 0);'
+    last = 1
+    for k, e in enumerate(ends):
+        out += body[last:e] + '\n        #[cfg(kani)] verif_kani::next_point(self, %d);' % (k + 1)
+        last = e
+    out += body[last:]
+    open(path, 'w').write(src.text[:loc['body_open']] + out + src.text[loc['end']:])
+    return 'X2c %s: %d interference point(s) inserted in IncreasingIdGenerator::next (before its first and after each of its %d top-level statements)' % (rel, len(ends) + 1, len(ends))
+
+
 def strip_test_modules(crate):
     """native replays only: remove every top-level `#[cfg(test)] mod .. { }` (and `#[cfg(test)] use ..;`)
     from the scratch copy so the replay build does not need the dev-dependencies"""
@@ -232,7 +252,7 @@ def x3_hashset(crate):
 
 def apply_all(crate):
     edits = []
-    for fn in (x1_thread_bodies, x2_ack_points, x3_hashset):
+    for fn in (x1_thread_bodies, x2_ack_points, x2c_idgen_points, x3_hashset):
         e = fn(crate)
         if e:
             edits.append(e)
